@@ -43,7 +43,7 @@ def run_kernel(cfg) -> Outcome:
         lhs = fn(a * x + b * y)[0]
         rhs = a * fn(x)[0] + b * fn(y)[0]
         scale = max(1e-30, float(rhs.abs().max()))
-        if float((lhs - rhs).abs().max()) > 100 * tol * scale:
+        if float((lhs - rhs).abs().nan_to_num(nan=float('inf')).max()) > 100 * tol * scale:
             viol = viol or {'signature': f'linearity:{cfg["kind"]}:{which}', 'what': f'{cfg} {which}: A(ax+by) != aA(x)+bA(y) (rel dev {float((lhs - rhs).abs().max()) / scale:.2e})'}
         if bool((fn(torch.zeros(shape, dtype=dt))[0] != 0).any()):
             viol = viol or {'signature': f'linearity:{cfg["kind"]}:{which}:zero', 'what': f'{cfg} {which}: A(0) != 0'}
@@ -59,13 +59,13 @@ def run_kernel(cfg) -> Outcome:
             lr = None
         if lr is not None:
             (lc,) = fn(xr.to(dt))
-            if lr.shape != lc.shape or float((lr.to(dt) - lc).abs().max()) > 100 * tol * max(1e-30, float(lc.abs().max())):
+            if lr.shape != lc.shape or float((lr.to(dt) - lc).abs().nan_to_num(nan=float('inf')).max()) > 100 * tol * max(1e-30, float(lc.abs().max())):
                 viol = viol or {'signature': f'linearity:{cfg["kind"]}:{which}:real-input',
                                 'what': f'{cfg} {which}: A(x) for a real-dtype x differs from A(x + 0j) (superposition with complex scalars fails for real images)'}
         M = zoo_kernels.dense(fn, shape, single=single)
         got = fn(x)[0].reshape(-1).to(M.dtype)
         want = M @ x.reshape(-1).to(M.dtype)
-        if float((got - want).abs().max()) > 100 * tol * max(1e-30, float(want.abs().max())):
+        if float((got - want).abs().nan_to_num(nan=float('inf')).max()) > 100 * tol * max(1e-30, float(want.abs().max())):
             viol = viol or {'signature': f'matrix-action:{cfg["kind"]}:{which}', 'what': f'{cfg} {which}: A(x) differs from the matrix of A (from basis vectors) applied to x'}
     return Outcome(key={k: v for k, v in cfg.items() if k != 'seed'}, viol=viol, branches=[f'kernel:{cfg["kind"]}'], sample=cfg)
 
